@@ -272,6 +272,52 @@ fn run_nnf(ctx: &Ctx, rng: &mut Rng, out: &mut dyn Write) {
             writeln!(s, "end").unwrap();
             out.write_all(s.as_bytes()).unwrap();
         }
+        // chains of unit edits on ONE instance (seeded change C11-r4A: the literal index of the features
+        // that a gapped new variable makes optional is read only by a LATER unit edit): a new variable
+        // beyond a gap of 1 or 2 skipped features, a unit clause over a skipped feature (either sign),
+        // and one over an original feature, the last two in either order
+        {
+            let gap = 1 + rng.below(2) as i32;
+            let top = n + 1 + gap;
+            let l1 = if rng.coin() { top } else { -top };
+            let skipped = n + 1 + rng.below(gap as u64) as i32;
+            let l2 = if rng.coin() { skipped } else { -skipped };
+            let olds: Vec<i32> = (1..=n).flat_map(|v| [v, -v]).filter(|&l| has_model_with(&models, l)).collect();
+            let mut chain: Vec<i32> = vec![l1, l2];
+            if !olds.is_empty() {
+                chain.push(olds[rng.below(olds.len() as u64) as usize]);
+                if rng.coin() {
+                    chain.swap(1, 2);
+                }
+            }
+            if gap == 2 && rng.coin() {
+                // the other skipped feature as well
+                let other = 2 * n + 3 - skipped;
+                chain.push(if rng.coin() { other } else { -other });
+            }
+            let mut s = String::new();
+            writeln!(s, "case c11n-{}-chain C11", k).unwrap();
+            writeln!(s, "info {} ; unit chain {}", inp.desc, join(&chain)).unwrap();
+            writeln!(s, "mode nnf {}", inp.format).unwrap();
+            writeln!(s, "n {}", inp.n).unwrap();
+            writeln!(s, "src_models {}", join(&models)).unwrap();
+            s.push_str(&file_block(inp.format, &inp.lines));
+            match load(&inp.lines, Some(inp.n)) {
+                Err(e) => writeln!(s, "impl panic-load {}", e).unwrap(),
+                Ok(mut d) => {
+                    writeln!(s, "step 0 load").unwrap();
+                    battery(&mut d, &mut s, rng.next());
+                    for (i, l) in chain.iter().enumerate() {
+                        let e: Edit = vec![(vec![*l], true)];
+                        if !apply(&mut d, i + 1, &e, &mut s, rng.next()) {
+                            break;
+                        }
+                    }
+                }
+            }
+            writeln!(s, "end").unwrap();
+            out.write_all(s.as_bytes()).unwrap();
+        }
         k += 1;
     }
 }
